@@ -126,7 +126,7 @@ func apply(rep *common.Report, tag string, c Case, oc *outcome) {
 		rep.Note("%s: %s", tag, n)
 	}
 	for _, f := range oc.Fails {
-		rep.Fail(common.OracleFailure{Engine: "conc", Key: f.Key, Case: c, Detail: tag + ": " + f.Detail})
+		failCapped(rep, common.OracleFailure{Engine: "conc", Key: f.Key, Case: c, Detail: tag + ": " + f.Detail})
 	}
 	rep.TracesValidated++
 }
